@@ -78,6 +78,8 @@ def run_paths(body, prefix=(), max_depth=None, max_samples=2):
         out['inconclusive'].extend(val.get('inconclusive', ()))
         if val.get('sample') is not None and len(out['samples']) < max_samples:
             out['samples'].append(val['sample'])
+        if val.get('witness') is not None and len(out.setdefault('witnesses', [])) < 2:
+            out['witnesses'].append(val['witness'])
     return out
 
 
@@ -102,6 +104,8 @@ def merge(total, res):
     total.setdefault('inconclusive', []).extend(res.get('inconclusive', ()))
     if len(total.setdefault('samples', [])) < 6:
         total['samples'].extend(res.get('samples', ())[:2])
+    if len(total.setdefault('witnesses', [])) < 40:
+        total['witnesses'].extend(res.get('witnesses', ())[:2])
     st = total.setdefault('stats', {})
     for k, v in res.get('stats', {}).items():
         if k == 'max_depth':
@@ -271,6 +275,25 @@ def finish(pid, tier, seed, total, extra=None, max_replays=6):
             except OSError:
                 pass
     inconclusive = list(total.get('inconclusive', ()))
+    # witnesses: concrete members of explored paths (solver models) are executed on the REAL code with the real
+    # bitsets; the real code must agree with the verdict of the symbolic run there
+    wit = total.get('witnesses', [])[:24]
+    if wit and not violations:
+        d = os.path.join(VERIF, 'replays')
+        os.makedirs(d, exist_ok=True)
+        wpath = os.path.join(d, f'tmp-witness-{pid}-{os.getpid()}.json')
+        with open(wpath, 'w') as f:
+            json.dump({'kind': 'batch', 'property': pid, 'cases': wit}, f, default=str)
+        ok, out = replay_file(wpath)
+        try:
+            os.remove(wpath)
+        except OSError:
+            pass
+        if ok is False:
+            total['traces_validated'] = total.get('traces_validated', 0) + len(wit)
+        elif not cands:
+            inconclusive.append('a witness of a path judged OK fails on the real code (model/engine disagrees with '
+                                'the implementation): ' + out[-400:])
     for path, out in unreproduced:
         inconclusive.append(f'counterexample did not reproduce on the real code: {out[-300:]}')
     total['inconclusive'] = inconclusive
